@@ -85,9 +85,14 @@ class BM:
 
     def owner_path(self, leaf):
         """owner-side dotted path of a backend state leaf."""
-        first, _, rest = leaf.partition(".")
-        base = self.fmap[first]
-        return base + ("." + rest if rest else "")
+        parts = leaf.split(".")
+        for n in range(len(parts), 0, -1):
+            # longest mapped prefix: a by-value wrapper around the borrowed state maps `reg.0`
+            pre_ = ".".join(parts[:n])
+            if pre_ in self.fmap:
+                rest = ".".join(parts[n:])
+                return self.fmap[pre_] + ("." + rest if rest else "")
+        raise Undecided("backend state leaf %s is not mapped to an owner field" % leaf)
 
     def init_leaf(self, leaf):
         v = None
